@@ -3,6 +3,7 @@ import Flowjaxv.Proofs.Rqs
 import Flowjaxv.Proofs.Planar
 import Flowjaxv.Proofs.Triangular
 import Flowjaxv.Proofs.NetLogDet
+import Flowjaxv.Proofs.BnafLd
 /-!
 # C02 — the log-determinant is the log-determinant
 
@@ -26,8 +27,8 @@ hand-written log-det formulas:
 and no obligation is counted for it.  On the real code the shape `()` is checked by the correspondence and by the oracle search.
 
 Classes with theorems here: Affine, Loc, Scale, Exp, SoftPlus, Tanh, LeakyTanh, Chain, Invert,
-elementwise liftings.  RationalQuadraticSpline, TriangularAffine, Planar, Coupling, MAF, BNAF, … are
-covered by the autodiff-Jacobian oracle and the correspondence (tools/props/c02.py) only.
+elementwise liftings; the network bijections (Coupling, MAF, BNAF — for BNAF the code's own `logmatmulexp` chain, `bnaf_logdet`)
+in the section "network bijections" below.
 -/
 open Gen Set
 
@@ -438,11 +439,9 @@ for an activation differentiable with positive derivative, all well-shaped raw w
 depth, block_dim, condition and EVERY point `v`, the Fréchet derivative `J` of `transform` exists, its matrix is lower
 triangular with the strictly positive diagonal of C09 `bnaf_jacobian`, so `det J = ∏ᵢ ∂yᵢ/∂xᵢ > 0` and
 `log |det J| = Σᵢ log (∂yᵢ/∂xᵢ)`.
-PARTIAL: what is missing is a model of `transform_and_log_det`'s own computation (the `logmatmulexp` chain over the
-3-D block log-Jacobians with `-inf` off the activation diagonals, `.sum()` over the `dim` blocks) and the identity
-"that value `= Σᵢ log (∂yᵢ/∂xᵢ)`" (the product of the diagonal blocks IS `∂yᵢ/∂xᵢ` — `MasksPf.curveInv_layer` —
-but the log-space accumulation is not modelled); on the real code the returned value is compared with
-`slogdet(jacfwd)` by the correspondence. -/
+PARTIAL (kept because it is still true and is used by `bnaf_logdet`): it says nothing about the value
+`transform_and_log_det` RETURNS.  The full statement — the code's own computation (per-layer log block-diagonals, the
+activation's `full(-inf)` matrices, the `logmatmulexp` chain, `.sum()`) returns exactly `log |det J|` — is `bnaf_logdet` below. -/
 theorem bnaf_logdet_partial (act : ℝ → ℝ) (hact : ∀ z, DifferentiableAt ℝ act z ∧ 0 < deriv act z)
     {dim depth bd : ℕ} {Ls : List (BnafLayer ℝ)} {condLinear : Option (List (List ℝ))}
     (hok : NetLawful.BnafOK dim depth bd Ls condLinear) (cond : List ℝ) (v : Fin dim → ℝ) :
@@ -453,6 +452,84 @@ theorem bnaf_logdet_partial (act : ℝ → ℝ) (hact : ∀ z, DifferentiableAt 
       (∀ i j : Fin dim, i < j → J (Pi.single j 1) i = 0) ∧
       J.det = ∏ i, d i ∧ 0 < J.det ∧ Real.log |J.det| = ∑ i, Real.log (d i) :=
   NetLogDet.bnaf_det' act hact hok cond v
+
+/-! ### `BlockAutoregressiveNetwork.transform_and_log_det`: the value the code computes
+
+`Masks.bnafTransformAndLogDet A dim bd layers condLinear x cond` (`Model/BnafLd.lean`) is the code's own computation:
+`log_dets_3ds = [log W₀ᵈⁱᵃᵍ, A₀, log W₁ᵈⁱᵃᵍ, A₁, …, log W_d ᵈⁱᵃᵍ]` (`linear_to_log_block_diagonal` of the unwrapped weights; `A_k` the
+`full(-inf)` matrices with the activation's vmapped log-det on the diagonals), folded from the right with the GENERATED
+`Gen.logmatmulexp` (batched over the `dim` blocks), then `.sum()`.  Log-domain entries are `Jnp.Ext ℝ = Option ℝ`, `none = -inf`.
+`A` is `activation.transform_and_log_det` on a scalar. -/
+
+/-- **key lemma** — over `ℝ` the generated `logmatmulexp x y` (max-subtraction stabilisation included) is entrywise
+`log (exp x · exp y)`: for a finite `n × k` matrix `x = log X` (`X > 0`, `k ≥ 1`) and a `k × m` log-domain matrix `y` (entries
+may be `-inf`) each of whose columns has a finite entry, entry `(i, j)` is `log Σ_l X i l · exp (y l j)` with `exp(-inf) = 0`.
+(An all-`-inf` column is the excluded point: the real code returns `nan` there — `-inf - -inf` — checked by the
+correspondence `lmme:excluded`.) -/
+theorem logmatmulexp_spec (n k m : ℕ) (hk : 0 < k) (X : ℕ → ℕ → ℝ) (hX : ∀ i l, i < n → l < k → 0 < X i l)
+    (fy : ℕ → ℕ → Jnp.Ext ℝ) (hy : ∀ j, j < m → ∃ l, l < k ∧ fy l j ≠ none) :
+    Gen.logmatmulexp (BnafLd.mkMat n k fun i l => some (Real.log (X i l))) (BnafLd.mkMat k m fy)
+      = BnafLd.mkMat n m fun i j => some (Real.log (∑ l ∈ Finset.range k, X i l * Jnp.Ext.exp (fy l j))) :=
+  BnafLd.lme_mk n k m hk X hX fy hy
+
+/-- **`bnaf_logdet`** — the FULL statement for `BlockAutoregressiveNetwork`: for every activation whose
+`transform_and_log_det` is `z ↦ (act z, log (act' z))` with `act` differentiable and `act' > 0` everywhere, all well-shaped raw
+weights / biases / raw weight-norm scales, every `dim`, `depth`, `block_dim ≥ 1`, (optional) condition and EVERY point `v`:
+the Fréchet derivative `J` of the modelled `transform` exists at `v`, `det J > 0`, and the pair the code's
+`transform_and_log_det` returns is `(transform v, log |det J|)` — the log-det is finite (`some`), no `-inf`/`nan` can reach it.
+Hypotheses the proof forces, and what the real code does outside them (run by `tools/props/bnafld.py` / reported):
+`act' > 0` — at a pre-activation where `act' = 0` (e.g. `activation = lambda z: z**3`, bias 0, `x = 0`) `det J = 0`, `log |det J| = -inf`,
+but the code returns `nan` (`logmatmulexp`'s `y - amax(y)` is `-inf - -inf` on the all-`-inf` column; the model at `Float` returns `nan` too);
+a non-monotone callable (`jnp.sin`, outside the documented "activation should be bijective") is accepted and gives a wrong log-det for `block_dim > 1`;
+a decreasing bijection (`act' < 0`) is still correct on the real code (not covered here);
+`block_dim ≥ 1` — `block_dim = 0` is accepted by the constructor and `transform_and_log_det` raises `ValueError` (zero-size `amax`) when `depth ≥ 1`. -/
+theorem bnaf_logdet (A : ℝ → ℝ × ℝ) (act : ℝ → ℝ) (hfst : ∀ z, (A z).1 = act z)
+    (hact : ∀ z, DifferentiableAt ℝ act z ∧ 0 < deriv act z) (hld : ∀ z, (A z).2 = Real.log (deriv act z))
+    {dim depth bd : ℕ} {Ls : List (BnafLayer ℝ)} {condLinear : Option (List (List ℝ))}
+    (hok : NetLawful.BnafOK dim depth bd Ls condLinear) (cond : List ℝ) (v : Fin dim → ℝ) :
+    ∃ J : (Fin dim → ℝ) →L[ℝ] (Fin dim → ℝ),
+      HasFDerivAt (NetLogDet.coords dim fun x => bnafTransform act Ls condLinear x cond) J v ∧ 0 < J.det ∧
+      bnafTransformAndLogDet A dim bd Ls condLinear (List.ofFn v) cond
+        = (bnafTransform act Ls condLinear (List.ofFn v) cond, some (Real.log |J.det|)) :=
+  BnafLd.bnaf_logdet A act ⟨hfst, hact, hld⟩ hok cond v
+
+/-- `bnaf_logdet` for the DEFAULT activation `LeakyTanh(max_val)` (any `max_val > 0`; the constructor uses `3`), through the
+generated `LeakyTanh.transform_and_log_det` — switch points `|z| = max_val` included — with no hypothesis left on the activation. -/
+theorem bnaf_logdet_leakytanh {m : ℝ} (hm : 0 < m)
+    {dim depth bd : ℕ} {Ls : List (BnafLayer ℝ)} {condLinear : Option (List (List ℝ))}
+    (hok : NetLawful.BnafOK dim depth bd Ls condLinear) (cond : List ℝ) (v : Fin dim → ℝ) :
+    ∃ J : (Fin dim → ℝ) →L[ℝ] (Fin dim → ℝ),
+      HasFDerivAt (NetLogDet.coords dim fun x => bnafTransform (LeakyTanh.transform (LeakyTanh.init m)) Ls condLinear x cond) J v ∧
+      0 < J.det ∧
+      bnafTransformAndLogDet (fun z => LeakyTanh.transform_and_log_det (LeakyTanh.init m) z) dim bd Ls condLinear (List.ofFn v) cond
+        = (bnafTransform (LeakyTanh.transform (LeakyTanh.init m)) Ls condLinear (List.ofFn v) cond, some (Real.log |J.det|)) :=
+  BnafLd.bnaf_logdet _ _ (BnafLd.leakyTanh_actOK hm) hok cond v
+
+/-- `bnaf_logdet` for `activation = fn`, a callable wrapped by `_CallableToBijection`
+(`transform_and_log_det z = (fn z, log |grad fn z|)`), differentiable with positive derivative. -/
+theorem bnaf_logdet_callable (fn : ℝ → ℝ) (hfn : ∀ z, DifferentiableAt ℝ fn z ∧ 0 < deriv fn z)
+    {dim depth bd : ℕ} {Ls : List (BnafLayer ℝ)} {condLinear : Option (List (List ℝ))}
+    (hok : NetLawful.BnafOK dim depth bd Ls condLinear) (cond : List ℝ) (v : Fin dim → ℝ) :
+    ∃ J : (Fin dim → ℝ) →L[ℝ] (Fin dim → ℝ),
+      HasFDerivAt (NetLogDet.coords dim fun x => bnafTransform fn Ls condLinear x cond) J v ∧ 0 < J.det ∧
+      bnafTransformAndLogDet (fun z => (fn z, Real.log |deriv fn z|)) dim bd Ls condLinear (List.ofFn v) cond
+        = (bnafTransform fn Ls condLinear (List.ofFn v) cond, some (Real.log |J.det|)) :=
+  BnafLd.bnaf_logdet _ _ (BnafLd.callable_actOK fn hfn) hok cond v
+
+/-- **`bnaf_inverse_logdet`** — `BlockAutoregressiveNetwork.inverse_and_log_det` has no analytic inverse: it is
+`x = inverter(self, y, condition); (x, -transform_and_log_det(x)[1])`.  For EVERY inverter function, whatever point `x = v` it
+returns, the returned log-det is minus the forward one there: `-log |det J(x)| = log |det J(x)⁻¹|`, `J(x)` the Fréchet
+derivative of `transform` at `x`.  (That `x` approximates the preimage of `y` is C01 / C10's matter — `AutoregressiveBisectionInverter`.) -/
+theorem bnaf_inverse_logdet (A : ℝ → ℝ × ℝ) (act : ℝ → ℝ) (hfst : ∀ z, (A z).1 = act z)
+    (hact : ∀ z, DifferentiableAt ℝ act z ∧ 0 < deriv act z) (hld : ∀ z, (A z).2 = Real.log (deriv act z))
+    {dim depth bd : ℕ} {Ls : List (BnafLayer ℝ)} {condLinear : Option (List (List ℝ))}
+    (hok : NetLawful.BnafOK dim depth bd Ls condLinear) (inverter : List ℝ → List ℝ → List ℝ) (y cond : List ℝ)
+    (v : Fin dim → ℝ) (hinv : inverter y cond = List.ofFn v) :
+    ∃ J : (Fin dim → ℝ) →L[ℝ] (Fin dim → ℝ),
+      HasFDerivAt (NetLogDet.coords dim fun x => bnafTransform act Ls condLinear x cond) J v ∧ 0 < J.det ∧
+      bnafInverseAndLogDet A dim bd Ls condLinear inverter y cond = (List.ofFn v, some (-(Real.log |J.det|))) ∧
+      -(Real.log |J.det|) = Real.log |(J.det)⁻¹| :=
+  BnafLd.bnaf_inverse_logdet A act ⟨hfst, hact, hld⟩ hok inverter y cond v hinv
 
 /-! ### non-vacuity -/
 
@@ -534,6 +611,17 @@ theorem bnaf_logdet_instance (v : Fin 2 → ℝ) :
     exact ⟨h.differentiableAt, by rw [h.deriv]; norm_num⟩
   obtain ⟨J, d, hJ, _, hz, _, hpos, _⟩ := bnaf_logdet_partial _ hact NetLawful.bnafExample_ok [] v
   exact ⟨J, hJ, hz 0 1 (by decide), hpos⟩
+
+/-- non-vacuity of `bnaf_logdet`: `MasksPf.bnafExample` (dim 2, depth 1, block_dim 1, weights of both signs) with the DEFAULT
+activation `LeakyTanh(3)` satisfies every hypothesis; at every point the code's `transform_and_log_det` returns `log |det J|`. -/
+theorem bnaf_logdet_full_instance (v : Fin 2 → ℝ) :
+    ∃ J : (Fin 2 → ℝ) →L[ℝ] (Fin 2 → ℝ),
+      HasFDerivAt (NetLogDet.coords 2 fun x => bnafTransform (LeakyTanh.transform (LeakyTanh.init 3)) bnafExample none x []) J v ∧
+      0 < J.det ∧
+      (bnafTransformAndLogDet (fun z => LeakyTanh.transform_and_log_det (LeakyTanh.init (3 : ℝ)) z) 2 1 bnafExample none
+        (List.ofFn v) []).2 = some (Real.log |J.det|) := by
+  obtain ⟨J, h1, h2, h3⟩ := bnaf_logdet_leakytanh (m := 3) (by norm_num) NetLawful.bnafExample_ok [] v
+  exact ⟨J, h1, h2, by rw [h3]⟩
 
 end NetworkLogDets
 /-! ## ===== END network bijections ===== -/
